@@ -72,12 +72,32 @@ def main():
         "v2 internal labels (LWake, LLookup .. None of still-blocked readers) and the iteration order of a failed multi-entry Store are inferred from the observations (returned readers, probe reads), not observed individually",
     ]
     R.proofs()
-    n = 5000 if R.thorough else 300
+    n = 8000 if R.thorough else 500
     rc, out, od = vp.go_harness("aggsigdb", env_extra={"VERIF_N": n})
     if rc != 0:
         R.broke("correspondence:harness aggsigdb failed to run", out[-3000:])
         R.finish()
     hs = json.load(open(os.path.join(od, "c17_traces.json")))
+    # Second pass under the Go race detector (other seed): the models treat "look the key up and keep the
+    # current notification channel" / "store and replace the channel" / the actor's state as atomic
+    # sections; an unsynchronised access to that state is reported here even when the scheduler does
+    # not happen to produce the losing interleaving.
+    if not os.environ.get("VERIF_REPLAY"):
+        nr = 600 if R.thorough else 150
+        rc, out, odr = vp.go_harness("aggsigdb", env_extra={"VERIF_N": nr, "VERIF_SEED": R.seed + 7919},
+                                     outdir=os.path.join(vp.WORK, "aggsigdb_race"), extra_args="-race")
+        R.coverage["race_detector_pass"] = {"scripts": nr, "rc": rc}
+        if rc != 0 and "DATA RACE" in out and "core/aggsigdb" in out:
+            i = out.index("WARNING: DATA RACE")
+            R.broke("correspondence:data race in core/aggsigdb reported by the Go race detector (atomic sections assumed by the models are not atomic)",
+                    out[i:i + 2500])
+        elif rc != 0:
+            R.broke("correspondence:harness aggsigdb failed to run under -race", out[-3000:])
+        else:
+            for h in json.load(open(os.path.join(odr, "c17_traces.json"))):
+                h["id"] += 1000000
+                h["kind"] += "+race"
+                hs.append(h)
     R.coverage["evaluations"] = len(hs)
     seen = set()
     for h in hs:
@@ -112,6 +132,9 @@ def main():
         R.notes.append("label kinds not exercised in this run: " + ", ".join(missing))
     R.add_samples([{"impl": h["impl"], "script": h["script"], "labels": h["labels"]} for h in hs if h.get("nontrivial") and h["kind"] != "corpus"][:2])
     byid = {h["id"]: h for h in hs}
+    for f in os.listdir(os.path.join(vp.COQ, "gen")):   # shards of an earlier (larger) run
+        if f.startswith("cases_C17_"):
+            os.remove(os.path.join(vp.COQ, "gen", f))
 
     def replay_of(h, idx=None):
         rp = {"impl": h["impl"], "script": h["script"], "labels": h["labels"],
